@@ -98,11 +98,52 @@ def soup(rng, frags, maxn):
     return "".join(expand_kw(rng, rng.choice(frags)) for _ in range(n))
 
 
+def near_midpoint(rng):
+    """decimal spelling of (or right next to) the exact midpoint of two adjacent binary64 values: the inputs on which a
+    float parser without its exact slow path rounds the wrong way"""
+    import struct
+    from fractions import Fraction
+    e = rng.choice([1023, 1075, 1076, rng.randint(990, 1100), rng.randint(960, 1130)])
+    bits = (e << 52) | (rng.getrandbits(52) if rng.random() < 0.8 else rng.choice([0, (1 << 52) - 1, 1, (1 << 52) - 2]))
+    lo = Fraction(struct.unpack("<d", struct.pack("<Q", bits))[0])
+    hi = Fraction(struct.unpack("<d", struct.pack("<Q", bits + 1))[0])
+    mid = (lo + hi) / 2
+    k = 0
+    while mid.denominator != 1:        # dyadic: finite decimal expansion
+        mid *= 10
+        k += 1
+    ds = str(mid.numerator)
+    if k:
+        ds = ds.rjust(k + 1, "0")
+        ip, fp = ds[:-k], ds[-k:]
+    else:
+        ip, fp = ds, ""
+    how = rng.random()
+    if how < 0.3:
+        fp = fp + rng.choice(["1", "0" * rng.randint(1, 25) + "1", "9"])            # just above the midpoint
+    elif how < 0.6 and (fp or ip):
+        body = ip + fp                                                               # just below: decrement, then pad with 9s
+        body = str(int(body) - 1).rjust(len(body), "0")
+        ip, fp = body[:len(ip)], body[len(ip):] + rng.choice(["", "9", "9" * rng.randint(2, 25)])
+    elif how < 0.75:
+        fp = fp + "0" * rng.randint(0, 25)                                           # the tie itself (ties to even)
+    if rng.random() < 0.3:
+        sh = rng.randint(1, 30)                                                      # same value in exponent form
+        if rng.random() < 0.5 and len(ip) > sh:
+            ip, fp, ex = ip[:-sh], ip[-sh:] + fp, sh
+        else:
+            ip, fp, ex = ip + (fp + "0" * sh)[:sh], fp[sh:], -sh
+        return ip + ("." + fp if fp or rng.random() < 0.3 else "") + rng.choice("eE") + (str(ex) if ex < 0 else rng.choice(["", "+"]) + str(ex))
+    return ip + "." + fp
+
+
 def gen_numeric(rng):
     digs = "0123456789"
     hexd = "0123456789abcdefABCDEF"
     def num():
         k = rng.random()
+        if k > 0.9:
+            return near_midpoint(rng)
         if k < 0.15:
             return rng.choice(["18446744073709551615", "18446744073709551616", "9223372036854775807", "9223372036854775808",
                                "179769313486231570000000000000000000000000000000", "1e308", "1.7976931348623157e308", "1.7976931348623159e308",
